@@ -30,20 +30,21 @@ theorem pr_setReqKeep {w0 w : World} (r : Nat) (f : Req → Req) (hf : ∀ q, (f
     Pres w0 (w.setReq r f) := pr_sv h (sameView_setReq _ _ _ (fun x hx => by rw [hf]; exact hx))
 theorem pr_pushReq {w0 w : World} (q : Req) (h : Pres w0 w) : Pres w0 { w with reqs := w.reqs.push q } :=
   pr_sv h (sameView_pushReq _ _)
-theorem pr_sev {w0 w : World} (sid : Nat) (e : SEv) (he : e.isClose = false) (hnc : ¬ closedW w sid)
-    (h : Pres w0 w) : Pres w0 (w.sev sid e) :=
-  h.trans (pres_sev w sid e (fun _ => hnc) he)
+theorem pr_sev {w0 w : World} (sid : Nat) (e : SEv) (he : e.isClose = false) (hn : e.accNeutral = true)
+    (hnc : ¬ closedW w sid) (h : Pres w0 w) : Pres w0 (w.sev sid e) :=
+  h.trans (pres_sev w sid e (fun _ => hnc) he hn)
 theorem pr_sev_nonfinal {w0 w : World} (sid : Nat) (e : SEv) (he : e.isClose = false) (hf : e.final = false)
-    (h : Pres w0 w) : Pres w0 (w.sev sid e) :=
-  h.trans (pres_sev w sid e (fun h => by rw [hf] at h; cases h) he)
+    (hn : e.accNeutral = true) (h : Pres w0 w) : Pres w0 (w.sev sid e) :=
+  h.trans (pres_sev w sid e (fun h => by rw [hf] at h; cases h) he hn)
 theorem pr_setSock {w0 w : World} (sid : Nat) (f : Sock → Sock)
     (hrank : (w.sock sid).rs.rank ≤ (f (w.sock sid)).rs.rank)
     (hcl : (f (w.sock sid)).rs = .closed ↔ (w.sock sid).rs = .closed)
     (hann : (f (w.sock sid)).announced = (w.sock sid).announced)
     (hproto : (f (w.sock sid)).proto = (w.sock sid).proto)
     (hok : sid < w.socks.size → SockOK (w.sock sid) → SockOK (f (w.sock sid)))
+    (hacc : sid < w.socks.size → AccS (w.sock sid) sid w.slog → AccS (f (w.sock sid)) sid w.slog)
     (h : Pres w0 w) : Pres w0 (w.setSock sid f) :=
-  h.trans (pres_setSock w sid f hrank hcl hann hproto hok)
+  h.trans (pres_setSock w sid f hrank hcl hann hproto hok hacc)
 /-- record updates of fields the invariant does not read (requests may be pushed) -/
 theorem pr_fields {w0 w : World} (w' : World) (h : Pres w0 w) (h1 : w'.socks = w.socks := by rfl)
     (h2 : w'.slog = w.slog := by rfl) (h3 : w'.registry = w.registry := by rfl)
@@ -70,7 +71,7 @@ macro "pr_prim" : tactic => `(tactic| repeat (first
   | apply pr_setTr | apply pr_setConn | apply pr_ev | apply pr_trSend | apply pr_answer | apply pr_abortData
   | apply pr_sockOnClose | apply pr_candFail | apply pr_candCleanup | apply pr_clearTransportF
   | apply pr_pushReq
-  | (refine pr_setSockSame _ _ ?hf ?h; case hf => (intro s; exact ⟨rfl, rfl, rfl, rfl, rfl⟩))
+  | (refine pr_setSockSame _ _ ?hf ?h; case hf => (intro s; exact ⟨rfl, rfl, rfl, rfl, rfl, rfl, rfl, rfl, by first | exact id | (intro h; cases h)⟩))
   | (refine pr_setReqKeep _ _ ?hf ?h; case hf => (intro q; rfl))))
 
 /-! ### the close paths -/
